@@ -174,6 +174,17 @@ func (g *gen) element(parent *Node, depth int, scope []binding, top bool) *Node 
 	if len(usable) > 0 && rapid.Bool().Draw(g.t, "elemInNS") {
 		b := usable[rapid.IntRange(0, len(usable)-1).Draw(g.t, "elemBinding")]
 		n.Space, n.Prefix = b.uri, b.prefix
+	} else if !hasDef && g.cfg.Undeclare && func() bool {
+		for _, d := range n.Decls {
+			if d.Local == "" {
+				return false
+			}
+		}
+		return rapid.IntRange(0, 5).Draw(g.t, "redundantUndeclare") == 0
+	}() {
+		// xmlns="" although no default namespace is in scope: legal, and the
+		// element has no namespace node for it either
+		n.Decls = append(n.Decls, Event{K: "N", Local: "", Value: ""})
 	} else if hasDef && defURI != "" {
 		declaredHere := false
 		for _, d := range n.Decls {
